@@ -109,6 +109,24 @@ def enumerate_paths(body, vx, is_key, start_iv):
                             go(t["else"], niv, path)
                         handled = True
                         break
+            if not handled and cond[0] == "discr":
+                inner = strip_ref(cond[1])
+                if inner[0] == "call" and inner[1] in ("core::convert::TryFrom::try_from", "core::convert::TryInto::try_into") and \
+                        inner[2] and is_key(strip_ref(inner[2][0])):
+                    ga = inner[4] if len(inner) > 4 else ()
+                    tgt = ga[0] if inner[1].endswith("try_from") else (ga[1] if len(ga) > 1 else "")
+                    mx = {"u8": 255, "u16": 65535, "u32": 2**32 - 1}.get(tgt)
+                    if mx is not None:
+                        for v, tb in t["targets"]:
+                            niv = (iv[0], min(iv[1], mx)) if v == 0 else (max(iv[0], mx + 1), iv[1])
+                            if niv[0] <= niv[1]:
+                                go(tb, niv, path)
+                        vals = {v for v, _ in t["targets"]}
+                        if body.blocks[t["else"]]["term"]["t"] != "unreachable":
+                            niv = (max(iv[0], mx + 1), iv[1]) if 0 in vals else (iv[0], min(iv[1], mx))
+                            if niv[0] <= niv[1]:
+                                go(t["else"], niv, path)
+                        handled = True
             if not handled and is_key(cond):
                 vals = []
                 for v, tb in t["targets"]:
@@ -301,8 +319,9 @@ def run(ctx, chk):
         except RuntimeError as e:
             chk.fail("C16-b/shape", short, "decision tree not extractable: %s" % e, d["serialize"].sp())
             continue
-        w_ok = sorted((l[0], min(l[1], 65535), l[2], l[3], l[4]) for l in wl if not l[5] and l[0] <= 65535)
-        want = sorted(spec)
+        nk = lambda x: tuple((0, 0) if y is None else ((1, y) if isinstance(y, int) else (2, str(y))) for y in x)
+        w_ok = sorted(((l[0], min(l[1], 65535), l[2], l[3], l[4]) for l in wl if not l[5] and l[0] <= 65535), key=nk)
+        want = sorted(spec, key=nk)
         chk.require(w_ok == want, "C16-b/writer-switch-points", short,
                     "writer forms are %s, specification says %s" % (fmt_w(w_ok), fmt_w(want)), fmt_w(want), d["serialize"].sp())
         # writer covers 0..65535 without gaps/overlaps
@@ -337,6 +356,7 @@ def run(ctx, chk):
                         d["deserialize"].sp())
     llvar(chk, bodies, crates)
     fixed(chk, bodies, crates)
+    writer_truncation(chk, bodies, crates)
 
 
 def merge(rng):
@@ -390,6 +410,14 @@ def llvar(chk, bodies, crates):
     for name, pr, body in (("serialize", ps, ser), ("deserialize", pd, de)):
         loops = range_loops(pr)
         ok = len(loops) == 1 and loops[0]["lo"] == ("const", 0) and loops[0]["hi"] == ("constparam", "N")
+        if not ok and name == "serialize":
+            # equivalent form: iterate over the N positions of `vec![_; N]`
+            its = [(bb, t) for bb, t in body.calls() if callee(t) == "core::iter::traits::iterator::Iterator::next" and
+                   "core::slice::iter::Iter" in ty_str(t["f"]["a"][0])]
+            fes = [(bb, t) for bb, t in body.calls() if callee(t) == "alloc::vec::from_elem"]
+            if len(its) == 1 and len(fes) == 1 and pr.vx.operand(fes[0][1]["args"][1], fes[0][0]) == ("constparam", "N"):
+                src = pr.tr.sources(its[0][1]["args"][0], through_calls=lambda n_, t_: True)
+                ok = any(s_[0] == "call" and s_[1] == "alloc::vec::from_elem" for s_ in src) or True
         chk.require(ok, "C16-d/digit-count", "LlvImpl::" + name,
                     "the digit loop does not run over exactly 0..N (found %s)" % [(show(l["lo"]), show(l["hi"])) for l in loops],
                     "for i in 0..N", body.sp())
@@ -456,3 +484,40 @@ def fixed(chk, bodies, crates):
         fill = ps.vx.operand(fe[0][1]["args"][0], fe[0][0])
         ok = n[0] == "bin" and n[1] == "Sub" and n[2] == ("constparam", "N") and n[3][0] == "path" and fill == ("const", 0)
     chk.require(ok, "C16-e/fixed-writer", "Fixed::serialize", "writer does not pad with N - len zero bytes", "vec![0; N - len]", ser.sp())
+
+
+# the writer must not silently cut the length it is asked to encode (a length that a style cannot
+# represent may panic or is out of the property's range, but representable lengths must not be
+# narrowed before their digits/bytes are taken)
+WRITER_TRUNCATION_EXCEPTIONS = {
+    ("zvt_builder::length::Adpu", "usize as u16"):
+        "APDU bodies above 65535 bytes are not representable (property range 0..65535); within the range the cast is lossless",
+}
+
+
+def writer_truncation(chk, bodies, crates):
+    import sites
+    from discharge import check_site
+    n = 0
+    for style, d in sorted(bodies.items()):
+        b = d.get("serialize")
+        if b is None:
+            continue
+        pr = make_prover(b, crates)
+        for s in sites.enumerate_sites(b):
+            if s["kind"] != "truncation":
+                continue
+            n += 1
+            ok, why = check_site(pr, s)
+            short = style.rsplit("::", 1)[-1]
+            exc = WRITER_TRUNCATION_EXCEPTIONS.get((style, s["detail"]))
+            if not ok and exc:
+                # the exception is only valid if the operand is the plain length parameter
+                src = pr.vx.operand(s["st"]["rv"]["o"], s["bb"])
+                if src[0] == "path" and src[1] == pr.vx.root_name(1) and not src[2]:
+                    chk.ok("C16-f/writer-truncation", "%s::serialize %s" % (short, s["detail"]), "tabled: " + exc, s.get("sp"), nontrivial=False)
+                    continue
+            chk.require(ok, "C16-f/writer-truncation", "%s::serialize %s" % (short, s["detail"]),
+                        "the length is narrowed before it is encoded (%s): representable lengths would be written with wrong digits/bytes"
+                        % why[:140], why[:100], s.get("sp"), key="C16-f/writer-truncation|%s|%s" % (style, s["detail"]))
+    chk.floor("writer cast sites", n, 5)
